@@ -432,6 +432,7 @@ def run_case(case):
         "geovi": int(bool(p.get("geovi"))),
         "randomised_sampling_minimiser": int(bool(p.get("geovi")) and p.get("napprox", 0) >= 2),
         "hdf5_export": int(bool(p.get("export"))),
+        "two_digit_sample_files": int(script in ("W4", "W5") and p.get("n_samples") == 6 and bool(p.get("odir"))),
         "output_files_compared": len(reffiles) if (reffiles is not None and sig is None) else 0,
         "resumed_on_other_task_count": int(script == "W5" and sig is None and case.get("n2") != n),
     }
@@ -473,7 +474,8 @@ def gen_params(script, rng):
         return {"n_samples": rng.randrange(1, 5), "mirror": rng.random() < 0.5, "posseed": rng.randrange(1000)}
     if script == "W4":
         return {"model": rng.choice(["nl3", "lin2"]), "nit": rng.choice([2, 2, 3]),
-                "n_samples": rng.choice([0, 1, 2, 3, {"at": 1, "a": 0, "b": 2}, {"at": 1, "a": 2, "b": 1}]),
+                # 6 -> 12 mirrored samples: two-digit sample files when the list is saved and loaded again
+                "n_samples": rng.choice([0, 1, 2, 3, {"at": 1, "a": 0, "b": 2}, {"at": 1, "a": 2, "b": 1}, 6]),
                 "geovi": rng.random() < 0.3, "strategy": rng.choice(["all", "latest"]),
                 "constants": rng.choice([[], [], ["a"], "callable"]),
                 "point_estimates": rng.choice([[], [], ["b"], "callable"]),
